@@ -65,8 +65,23 @@ def frac(s):
 
 
 def ffloat(s):
-    """Exact rational value of the float64 a Go-printed string denotes."""
+    """Exact rational value of the float64 a Go-printed string denotes (or of a 'p/q' string
+    written by fs_exact)."""
+    if isinstance(s, Fraction):
+        return s
+    if isinstance(s, str) and "/" in s:
+        return Fraction(s)
     return Fraction(float(s))
+
+
+def fs_exact(x):
+    """a rational as a string that frac()/ffloat-free readers can take back exactly: used for
+    synthetic observables; dyadic rationals print as floats, others as 'p/q'"""
+    x = Fraction(x)
+    f = float(x)
+    if Fraction(f) == x:
+        return repr(f)
+    return "%d/%d" % (x.numerator, x.denominator)
 
 
 def isfinite_s(s):
